@@ -68,16 +68,17 @@ def U(e):
     return z3.Unit(e)
 
 
-# ---- the violation-error block (contract of _create_violation_error, C09) ---------------------------------
-VI_RAISES = REG.specfun("vi_raises", [I, I, I, B])  # (contract, rho, t)
-VI_VAL = REG.specfun("vi_val", [I, I, I, I])
-VI_END = REG.specfun("vi_end", [I, I, I, I])
+# ---- the violation-error block (contract of _create_violation_error, C09); defined in specs/violation.py ------
+class _Lazy:
+    def __getattr__(self, name):
+        return getattr(VI, name)
 
 
 def viol(c, rho, t):
     """A falsy condition: the violation error is created (block event); it is returned (FAIL) or creation raises."""
+    v = VI(c, rho, t)
     ev = U(event("Viol", c, rho))
-    return Res(z3.If(VI_RAISES(c, rho, t), RAISEU, FAIL), VI_VAL(c, rho, t), NONE, VI_END(c, rho, t), ev)
+    return Res(z3.If(v.kind == OK, FAIL, v.kind), v.val, v.cls, v.end, ev)
 
 
 def _not_check_res(v, t, on_falsy, on_truthy):
@@ -140,7 +141,8 @@ class Walk:
                 me = self(*args)
                 cl = []
                 for guards, leaf in body(*args).leaves():
-                    eqs = z3.And(me.kind == leaf.kind, me.val == leaf.val, me.cls == leaf.cls, me.end == leaf.end, me.ev == leaf.ev)
+                    eqs = z3.And([getattr(me, comp) == getattr(leaf, comp) for comp in ("kind", "val", "cls", "end", "ev")
+                                  if getattr(leaf, comp) is not None])
                     cl.append(z3.Implies(z3.And(guards), eqs) if guards else eqs)
                 memo[key] = z3.And(cl) if len(cl) > 1 else cl[0]
             return memo[key]
@@ -148,6 +150,8 @@ class Walk:
             getattr(self, comp).defn = defn
 
 
+# creation of the violation error for a contract: OK (val = the error object) | RAISEU | RAISEL
+VI = Walk("vi", [I, I, I])  # contract, rho, t
 # truth test of a check value: OK = truthy, FAIL = falsy, or the raise of `not check` (contract of not_check)
 NC = Walk("nc", [I, I])  # value, t
 # one condition of a list
